@@ -111,13 +111,14 @@ static int do_mandatory() {
 
 // mode "isolate": a thread that waits inside this_task_arena::isolate executes only tasks spawned within the same isolation scope.
 // outer parallel_for bodies each open an isolated region with an inner parallel_for; while a thread is inside the region of outer iteration i
-// it must not start another outer body nor an inner body of another outer iteration.   input: seed P N M   output: OUTERINISO x FOREIGNINNER y LOST z
+// it must not start another outer body nor an inner body of another outer iteration.   input: seed P N M pre   output: OUTERINISO x FOREIGNINNER y LOST z
 static thread_local int tl_iso_depth = 0; static thread_local long tl_iso_owner = -1;
 static int do_isolate() {
     std::vector<i128> c; Out o; Watchdog wd(60.0);
     while (read_case(c)) {
-        unsigned seed = (unsigned)c[0]; int P = (int)c[1]; long N = (long)c[2], M = (long)c[3];
+        unsigned seed = (unsigned)c[0]; int P = (int)c[1]; long N = (long)c[2], M = (long)c[3]; int pre = c.size() > 4 ? (int)c[4] : 0;
         std::atomic<long> outer_in_iso{0}, foreign_inner{0}, done{0};
+        tbb::task_arena other(2);
         wd.arm(&o);
         tbb::task_arena a(P);
         a.execute([&] {
@@ -125,6 +126,15 @@ static int do_isolate() {
                 if (tl_iso_depth > 0) outer_in_iso++;                       // an outer task taken while waiting inside an isolated region
                 tbb::this_task_arena::isolate([&] {
                     long saved = tl_iso_owner; tl_iso_owner = i; tl_iso_depth++;
+                    // what the thread does inside the region before it spawns and waits (none of it may end the isolation)
+                    switch (pre) {
+                    case 1: a.execute([] {}); break;                                              // re-entrant execute on the arena it is already in
+                    case 2: other.execute([] { tbb::parallel_for(0, 4, [](int) {}); }); break;    // a trip into another arena and back
+                    case 3: tbb::this_task_arena::isolate([] { tbb::parallel_for(0, 4, [](int) {}); }); break;   // a nested region
+                    case 4: { tbb::task_group tg; tg.run_and_wait([] {}); } break;
+                    case 5: a.execute([&] { tbb::task_group tg; tg.run([] {}); tg.wait(); }); break;
+                    default: break;
+                    }
                     tbb::parallel_for(0L, M, [&, i](long j) {
                         if (tl_iso_depth > 0 && tl_iso_owner != i) foreign_inner++;   // inner task of another region taken inside this one
                         volatile unsigned x = 0; for (unsigned k = 0; k < 200 + (unsigned)((seed + i + j) % 7) * 300; ++k) x += k;
